@@ -144,9 +144,24 @@ pub fn pools(ctx: &Ctx, rng: &mut Rng, atoms_sets: &[(&str, &[&str])]) -> Pools 
         let n = if quick { 150 } else { 1500 };
         let mut p = gen::sample_subsets(rng, &w, 3, n);
         p.extend((0..n).map(|_| gen::random_list(rng, atoms)));
-        // every single atom and every pair of atoms as one test case
+        // every single atom as the only test case; every pair and (capped) triple of atoms as separate
+        // one-atom test cases — these end up in character classes, optional parts and short alternations
         for a in atoms.iter() {
             p.push(vec![a.to_string()]);
+        }
+        for i in 0..atoms.len() {
+            for j in i + 1..atoms.len() {
+                p.push(vec![atoms[i].to_string(), atoms[j].to_string()]);
+            }
+        }
+        let triples = if quick { 200 } else { 2000 };
+        for _ in 0..triples {
+            let mut t: Vec<String> = (0..3).map(|_| rng.pick(atoms).to_string()).collect();
+            if rng.chance(1, 3) {
+                let extra = format!("{}{}", rng.pick(atoms), rng.pick(atoms));
+                t.push(extra);
+            }
+            p.push(t);
         }
         adversarial.push((name.to_string(), p));
     }
@@ -448,8 +463,12 @@ pub fn conclude(ctx: &Ctx, o: &mut Outcome, rejudge: &dyn Fn(&Case) -> Vec<Fail>
     let mut lines = vec![];
     let mut known_hits: BTreeMap<String, usize> = BTreeMap::new();
     let mut unknown: Vec<(Case, Fail)> = vec![];
+    // A failure is the baseline's own only where the implementation still behaves as the committed model
+    // does: an input on which implementation and model differ is never covered by a known finding.
+    let differing: HashSet<u64> = o.model_diffs.iter().map(|(c, _, _)| hash_case(c)).collect();
     for (c, f) in &o.oracle_fails {
-        match classify(ctx, c, f, rejudge) {
+        let covered = if differing.contains(&hash_case(c)) { None } else { classify(ctx, c, f, rejudge) };
+        match covered {
             Some(k) => *known_hits.entry(k.id.clone()).or_insert(0) += 1,
             None => unknown.push((c.clone(), f.clone())),
         }
